@@ -31,6 +31,7 @@ def run(ctx):
     r1(ctx, g)
     r2(ctx, g)
     r3(ctx)
+    r5(ctx, g)
 
 
 def r1(ctx, g: Grammar):
@@ -155,3 +156,21 @@ def r3(ctx):
         c = st[0].value
         ok = dotted(c.func) == "c2profile_parser.parse" and len(c.args) == 1 and dotted(c.args[0]) == params(ft.node)[1]
     ctx.ob("R3", "AGREE", ft, "profile.tree = parser.parse(source)", ok, "from_text stores the parser's tree unmodified" if ok else f"from_text stores {[src(s.value) for s in st]}")
+
+
+def r5(ctx, g: Grammar):
+    """Every `keyword { X* }` block form accepts the empty body (quantifier: "repeated and empty blocks")."""
+    blocks = {}
+    for r in g.rules:
+        if r.origin.startswith("__") or not g.is_block(r):
+            continue
+        key = (r.origin, r.tree_name)
+        body = [s for s in r.expansion if not s.is_term and s.name != "variant"]
+        blocks.setdefault(key, []).append(len(body) == 0)
+    n = 0
+    for (origin_, name), empties in sorted(blocks.items()):
+        n += 1
+        ok = any(empties)
+        ctx.rep.ob("R5", "GRAM", f"c2profile.lark::{origin_}::{name} {{}}", ok, f"block `{name}` of rule {origin_} has an alternative with an empty body={ok}" + ("" if ok else ": an empty block is rejected by the parser"),
+                   "dissect/cobaltstrike/c2profile.lark", 0)
+    ctx.rep.count("block_forms", n, floor=25)
